@@ -79,7 +79,7 @@ func verIndex(s string) int {
 	return -1
 }
 
-var extraFile = map[string]string{"aaa-before": "AAA-before.txt", "zzz-after": "zzz-after.so"}
+var extraFile = map[string]string{"aaa-before": "AAA-before.txt", "zzz-after": "zzz-after.so", "embeds-prefix": "libnotation-p.so"}
 
 func installScript(marker, name, version, metaKind, origin string) string {
 	extra := ""
@@ -138,8 +138,12 @@ func runPluginInstall() int {
 		if in.Src.Cand == "nonexec" {
 			candMode = 0644
 		}
-		if in.Src.Cand != "none" {
+		if in.Src.Cand != "none" && in.Src.Cand != "misnamed" {
 			must(os.WriteFile(filepath.Join(src, "notation-p"), []byte(installScript(marker, "p", srcVer, in.Src.Meta, "src")), candMode))
+		}
+		if in.Src.Cand == "misnamed" {
+			// an executable whose name only contains the plugin file name
+			must(os.WriteFile(filepath.Join(src, "backup-notation-p"), []byte(installScript(marker, "p", srcVer, in.Src.Meta, "src")), 0755))
 		}
 		if in.Src.Cand == "two" {
 			must(os.WriteFile(filepath.Join(src, "notation-zz"), []byte(installScript(marker, "zz", srcVer, "ok", "src")), 0755))
@@ -154,6 +158,9 @@ func runPluginInstall() int {
 		pluginPath := src
 		if in.Src.Shape == "file" {
 			pluginPath = filepath.Join(src, "notation-p")
+			if in.Src.Cand == "misnamed" {
+				pluginPath = filepath.Join(src, "backup-notation-p")
+			}
 		}
 		bystBefore := snapTree(filepath.Join(root, "q"))
 		mgr := plugin.NewCLIManager(dir.NewSysFS(root))
@@ -194,6 +201,8 @@ func runPluginInstall() int {
 						atom = "aaa-before"
 					case de.Name() == extraFile["zzz-after"]:
 						atom = "zzz-after"
+					case de.Name() == extraFile["embeds-prefix"]:
+						atom = "embeds-prefix"
 					}
 					obs.Files = append(obs.Files, atom)
 					if !de.IsDir() {
